@@ -25,54 +25,64 @@ func c13() []*Ob {
 		{Prop: "C13", ID: "C13.10", Engine: "PAIR(parse/validate)", Floor: 2,
 			Desc: "each end of a numeric range is validated itself: in NewRangeNumberSearch every number obtained from strconv.ParseFloat is the one handed to the not-a-number/infinity test (the parsed value, or the field it was stored in) before the searcher is returned — testing the lower end twice lets `[* to Inf]` or `[1 to NaN]` be evaluated numerically instead of falling back to the text range: text tokens the range denotes are missed",
 			Check: func(c *Ctx) {
-				fn := c.Fn("pattern.NewRangeNumberSearch")
-				if fn == nil {
+				root := c.Fn("pattern.NewRangeNumberSearch")
+				if root == nil {
 					return
 				}
 				parse := Callee("strconv.ParseFloat")
 				test := Callee("pattern.isNaNOrInf")
-				tests := c.P.FindLifted(fn, CallSel(test))
-				n := 0
-				for _, pc := range CallsIn(fn, parse) {
-					v := ResultN(pc, 0)
-					if v == nil {
-						continue
+				// the constructor itself and the private helpers it parses its bounds with
+				hosts := []*ssa.Function{root}
+				for _, call := range CallsIn(root, nil) {
+					if h := StaticCallee(call); h != nil && h.Blocks != nil && c.P.InRepo(h) && len(CallsIn(h, parse)) > 0 {
+						hosts = append(hosts, h)
 					}
-					n++
-					// where the parsed value is kept
-					var fields []string
-					typ := ""
-					if v.Referrers() != nil {
-						for _, r := range *v.Referrers() {
-							if st, ok := r.(*ssa.Store); ok && st.Val == v {
-								if t, f, _, okf := FieldOf(st.Addr); okf {
-									typ = t
-									fields = append(fields, f)
+				}
+				n := 0
+				for _, fn := range hosts {
+					tests := c.P.FindLifted(fn, CallSel(test))
+					for _, pc := range CallsIn(fn, parse) {
+						v := ResultN(pc, 0)
+						if v == nil {
+							continue
+						}
+						n++
+						// where the parsed value is kept
+						var fields []string
+						typ := ""
+						if v.Referrers() != nil {
+							for _, r := range *v.Referrers() {
+								if st, ok := r.(*ssa.Store); ok && st.Val == v {
+									if t, f, _, okf := FieldOf(st.Addr); okf {
+										typ = t
+										fields = append(fields, f)
+									}
 								}
 							}
 						}
-					}
-					ok := false
-					for _, t := range tests {
-						if t.In.Parent() != fn || !Dominates(pc.(ssa.Instruction), t.In) {
-							continue
-						}
-						a := Arg(t.Call(), 0)
-						if a == v {
-							ok = true
-						}
-						for _, f := range fields {
-							if ValueIsField(a, typ, f) {
+						ok := false
+						for _, t := range tests {
+							if t.In.Parent() != fn || !Dominates(pc.(ssa.Instruction), t.In) {
+								continue
+							}
+							a := Arg(t.Call(), 0)
+							if a == v {
 								ok = true
 							}
+							for _, f := range fields {
+								if ValueIsField(a, typ, f) {
+									ok = true
+								}
+							}
+						}
+						if ok {
+							c.Site(pc.Pos(), "the parsed bound is the one tested for NaN/Inf")
+						} else {
+							c.Violation("pair:NewRangeNumberSearch:validate-own-bound:"+strings.Join(fields, ","), pc.Pos(), "a bound parsed with strconv.ParseFloat (kept in %v) is not the value that is tested for NaN/Inf afterwards: a non-finite end of the range is taken for a number", fields)
 						}
 					}
-					if ok {
-						c.Site(pc.Pos(), "the parsed bound is the one tested for NaN/Inf")
-					} else {
-						c.Violation("pair:NewRangeNumberSearch:validate-own-bound:"+strings.Join(fields, ","), pc.Pos(), "a bound parsed with strconv.ParseFloat (kept in %v) is not the value that is tested for NaN/Inf afterwards: a non-finite end of the range is taken for a number", fields)
-					}
 				}
+				fn := root
 				if n == 0 {
 					c.Undecided("pair:NewRangeNumberSearch:noparse", fn.Pos(), "NewRangeNumberSearch no longer parses its bounds with strconv.ParseFloat")
 				}
@@ -199,33 +209,85 @@ func c13() []*Ob {
 					}
 				}
 				if fn := c.Fn("pattern.NewRangeNumberSearch"); fn != nil {
-					pf := CallsIn(fn, Callee("strconv.ParseFloat"))
-					if len(pf) < 2 {
-						c.Undecided("NewRangeNumberSearch:parse", fn.Pos(), "NewRangeNumberSearch no longer parses both ends with strconv.ParseFloat")
+					// a bound that does not parse ends in the nil result. The parsing may sit in NewRangeNumberSearch itself, or in a
+					// private helper that reports failure through a boolean result which the constructor then turns into nil.
+					parse := Callee("strconv.ParseFloat")
+					failsToNil := func(f *ssa.Function, from ssa.Instruction, init func(SimState), failed func(ret *ssa.Return) bool) (bad bool, paths int) {
+						res := Simulate(from, true, init, func(st SimState, in ssa.Instruction) bool {
+							ret, ok := in.(*ssa.Return)
+							if !ok {
+								return true
+							}
+							if !failed(ret) {
+								bad = true
+							}
+							return false
+						})
+						return bad, res.Paths
 					}
-					for i, call := range pf {
+					retNil := func(ret *ssa.Return) bool { return IsNilConst(RetOperand(ret, 0)) }
+					n := 0
+					// (a) in place
+					for i, call := range CallsIn(fn, parse) {
+						n++
 						ev := ErrorResult(call)
 						if ev == nil {
 							c.Violation(keyN("pathsim:NewRangeNumberSearch:unchecked", i), call.Pos(), "the error of ParseFloat is not inspected")
 							continue
 						}
-						bad := false
-						res := Simulate(call.(ssa.Instruction), true, func(st SimState) { st.SetNil(ev, -1) }, func(st SimState, in ssa.Instruction) bool {
-							ret, ok := in.(*ssa.Return)
-							if !ok {
-								return true
-							}
-							if !IsNilConst(RetOperand(ret, 0)) {
-								bad = true
-							}
-							return false
-						})
-						c.Count("paths_simulated", res.Paths)
+						bad, paths := failsToNil(fn, call.(ssa.Instruction), func(st SimState) { st.SetNil(ev, -1) }, retNil)
+						c.Count("paths_simulated", paths)
 						if bad {
 							c.Violation(keyN("pathsim:NewRangeNumberSearch:failed-end", i), call.Pos(), "a numeric range searcher can be returned although this end did not parse as a number: the range is then evaluated numerically with a zero bound instead of as a text range")
 						} else {
 							c.Site(call.Pos(), "a failed ParseFloat always leads to the nil (text search) result")
 						}
+					}
+					// (b) through a helper with a boolean "ok" result
+					for i, hc := range CallsIn(fn, nil) {
+						h := StaticCallee(hc)
+						if h == nil || h.Blocks == nil || !c.P.InRepo(h) || len(CallsIn(h, parse)) == 0 {
+							continue
+						}
+						res := h.Signature.Results()
+						okIdx := -1
+						for k := 0; k < res.Len(); k++ {
+							if b, isB := res.At(k).Type().Underlying().(*types.Basic); isB && b.Kind() == types.Bool {
+								okIdx = k
+							}
+						}
+						if okIdx < 0 {
+							continue
+						}
+						retFalse := func(ret *ssa.Return) bool { v, isK := ConstBool(RetOperand(ret, okIdx)); return isK && !v }
+						for _, call := range CallsIn(h, parse) {
+							n++
+							ev := ErrorResult(call)
+							if ev == nil {
+								c.Violation(keyN("pathsim:NewRangeNumberSearch:unchecked", i), call.Pos(), "the error of ParseFloat is not inspected")
+								continue
+							}
+							bad, paths := failsToNil(h, call.(ssa.Instruction), func(st SimState) { st.SetNil(ev, -1) }, retFalse)
+							c.Count("paths_simulated", paths)
+							if bad {
+								c.Violation(keyN("pathsim:NewRangeNumberSearch:failed-end", i), call.Pos(), "%s can report success although the bound did not parse as a number", FuncName(h))
+							}
+						}
+						okVal := ResultN(hc, okIdx)
+						if okVal == nil {
+							c.Violation(keyN("pathsim:NewRangeNumberSearch:unchecked", i), hc.Pos(), "the ok result of %s is not inspected", FuncName(h))
+							continue
+						}
+						bad, paths := failsToNil(fn, hc.(ssa.Instruction), func(st SimState) { st.Assume(okVal, false) }, retNil)
+						c.Count("paths_simulated", paths)
+						if bad {
+							c.Violation(keyN("pathsim:NewRangeNumberSearch:failed-end", i), hc.Pos(), "a numeric range searcher can be returned although %s reported that this end is not a number", FuncName(h))
+						} else {
+							c.Site(hc.Pos(), "a bound that %s rejects always leads to the nil (text search) result", FuncName(h))
+						}
+					}
+					if n < 1 {
+						c.Undecided("NewRangeNumberSearch:parse", fn.Pos(), "NewRangeNumberSearch no longer parses its ends with strconv.ParseFloat")
 					}
 				}
 			}},
@@ -443,20 +505,24 @@ func matcherShape(c *Ctx) {
 			continue
 		}
 		found, inner := false, false
-		for _, b := range fn.Blocks {
-			for _, in := range b.Instrs {
-				ld, ok := in.(*ssa.UnOp)
-				if !ok || ld.Op != token.MUL {
-					continue
-				}
-				ia, ok := ld.X.(*ssa.IndexAddr)
-				if !ok || !ValueIsField(ia.X, "pattern.substring", "prefFunc") {
-					continue
-				}
-				found = true
-				if loopDepth(b) >= 2 {
-					inner = true
-				}
+		// the read of the prefix function, in the function itself or in a private helper it calls per byte (advance):
+		// the loop nesting is counted along the call chain
+		isPrefRead := func(in ssa.Instruction) bool {
+			ld, ok := in.(*ssa.UnOp)
+			if !ok || ld.Op != token.MUL {
+				return false
+			}
+			ia, ok := ld.X.(*ssa.IndexAddr)
+			return ok && ValueIsField(ia.X, "pattern.substring", "prefFunc")
+		}
+		for _, l := range c.P.FindLifted(fn, isPrefRead) {
+			found = true
+			depth := loopDepth(l.In.Block())
+			for _, via := range l.Via {
+				depth += loopDepth(via.(ssa.Instruction).Block())
+			}
+			if depth >= 2 {
+				inner = true
 			}
 		}
 		switch {
